@@ -57,8 +57,12 @@ def main():
             for prop in ([args.prop] if args.prop else m["props"]):
                 env = dict(os.environ, VERIF_REPO=dst, VERIF_SEED=args.seed, VERIF_EVIDENCE_DIR=os.path.join(tmp, "ev"), VERIF_REPLAY_DIR=os.path.join(tmp, "rp"))
                 t0 = time.time()
-                r = subprocess.run([os.path.join(HERE, "check"), prop, "--tier", args.tier], env=env,
-                                   capture_output=True, text=True)
+                try:
+                    r = subprocess.run([os.path.join(HERE, "check"), prop, "--tier", args.tier], env=env,
+                                       capture_output=True, text=True, timeout=900, start_new_session=True)
+                except subprocess.TimeoutExpired:
+                    rows.append((m["id"], prop, "TIMEOUT", ""))
+                    continue
                 sigs = [ln.strip() for ln in r.stdout.splitlines() if ln.strip().startswith("signature:")]
                 rows.append((m["id"], prop, r.returncode, f"{time.time() - t0:.0f}s {tests} {sigs[:3]}"))
                 if r.returncode == 2:
